@@ -12,12 +12,12 @@ import (
 )
 
 type FuncReport struct {
-	Name     string
-	Err      error
-	Obls     []*Obligation
-	Warnings []string
+	Name        string
+	Err         error
+	Obls        []*Obligation
+	Warnings    []string
 	HasContract bool
-	Trusted  string
+	Trusted     string
 }
 
 // genFunc generates the obligations of one function (all split cases).
